@@ -36,7 +36,7 @@ REQUIRED = {"match.instance_matches": {"quick": 3000, "thorough": 150000}, "args
             "wrapper.span_invariant_on_every_match": {"quick": 5000, "thorough": 250000}}
 REQUIRED_SEEN = {"step_function_flavour": ["sync", "async_plain", "async_with_timeout", "behind_shared_decorator"], "step_module_imports_another": ["yes"],
                  "cucumber_expression_parameters": ["none", "1", "2", "no_match"],
-                 "project_default_given_by": ["use_default_step_matcher", "use_step_matcher_before_loading"], "matcher_kind": KINDS, "token_kind": ["lit", "named", "int", "word", "float", "custom", "many", "optional", "rnamed", "runnamed", "roptional"]}
+                 "project_default_given_by": ["use_default_step_matcher", "use_step_matcher_before_loading"], "matcher_kind": KINDS, "field_name_class": ["soft_keyword"], "custom_type_name": ["Color", "Colorful"], "token_kind": ["lit", "named", "int", "word", "float", "custom", "many", "optional", "rnamed", "runnamed", "roptional"]}
 EXHAUSTIVE = {"quick": True, "thorough": True}
 EXHAUSTIVE_SCOPE = "all ordered registration histories up to the length bound over a 6-entry pattern pool x 3 step types"
 NSHARDS = {"quick": 16, "thorough": 16}
@@ -63,7 +63,8 @@ def gen_pattern(rng, kind, ntok=None):
     ntok = ntok or rng.randint(1, 5)
     toks = []
     nfield = 0
-    names = iter(["n1", "n2", "n3", "n4"])
+    # field names: ordinary ones, or words that are soft keywords of the language and perfectly legal parameter names
+    names = iter(["n1", "n2", "n3", "n4"] if rng.random() < 0.7 else rng.sample(["type", "match", "case", "n4"], 4))
     last_field = True      # avoid two adjacent fields (ambiguous split) and a leading untyped field next to nothing
     for i in range(ntok):
         want_field = (not last_field) and nfield < 3 and rng.random() < 0.55
@@ -100,7 +101,8 @@ def pattern_text(toks, kind):
         elif k == "float":
             parts.append("{%s:f}" % t[1])
         elif k == "custom":
-            parts.append("{%s:Color}" % t[1])
+            # (two independent user types whose names share a prefix: Color and Colorful)
+            parts.append("{%s:%s}" % (t[1], "Colorful" if t[1] in ("n2", "n4", "match") else "Color"))
         elif k == "many":
             parts.append("{%s:Number+}" % t[1])
         elif k == "optional":
@@ -283,6 +285,8 @@ class Lab(object):
         for cls in (M.ParseMatcher, M.CFParseMatcher):
             cls.clear_registered_types()
         self.color_version = (getattr(self, "_nreg", 0) // 5) % 2
+        # the type with the longer name is registered first, in a call of its own (another step module) -- same converter
+        M.ParseMatcher.register_type(Colorful=(self.parse_color_v1 if self.color_version else self.parse_color))
         M.ParseMatcher.register_type(Color=(self.parse_color_v1 if self.color_version else self.parse_color), Number=self.parse_number)
         self._nreg = getattr(self, "_nreg", 0) + 1
         if self._nreg % 2 == 0 and getattr(self, "_used_reg", None) is not None:
@@ -368,6 +372,10 @@ def check_pattern(lab, mon, rng, kind, sample=False):
     mon.seen("matcher_kind", kind)
     for t in toks:
         mon.seen("token_kind", t[0])
+        if len(t) > 1 and t[0] != "lit" and t[1] in ("type", "match", "case"):
+            mon.seen("field_name_class", "soft_keyword")
+        if t[0] == "custom":
+            mon.seen("custom_type_name", "Colorful" if t[1] in ("n2", "n4", "match") else "Color")
     try:
         lab.register(reg, kind, "step", ptext, fn)
     except Exception as ex:
